@@ -187,8 +187,15 @@ package mcp
 // capabilities are present and decodable (and clientInfo, if present, decodable); failures are invalid-params.
 // extractRequestMeta decodes into a zero-valued local, so the decoder only allocates: nothing that existed before
 // the call is written (assumed: encoding/json does not write outside its destination).
-//@ func extractRequestMeta
-//@   trusted
+// Verified (since seed C06-8): the gate reads "_meta" with the SDK's case-sensitive decoder, the one the handler's
+// params are decoded with - never with encoding/json, whose case-insensitive matching would let "_Meta" open the gate
+// while the handler sees no metadata; params that do not decode carry no metadata.
+//@ func extractRequestMeta [C06, C19]
+//@   track internal/json.Unmarshal as dec
+//@   track encoding/json.Unmarshal as stdDec
+//@   ensures @metadata-is-read-case-sensitively calls(stdDec) == 0 && calls(dec) <= 1 && (len(rawParams) > 0 ==> calls(dec) == 1 && callArg(dec, 1, 0) == rawParams)
+//@   ensures @undecodable-params-carry-no-metadata calls(dec) == 1 && callResult(dec, 1, 0) != nil ==> result == nil
+//@   ensures @no-params-no-metadata len(rawParams) == 0 ==> result == nil
 //@ func validateRequestMeta [C06]
 //@   track decodeMetaValue as decCaps when $1 == MetaKeyClientCapabilities
 //@   track decodeMetaValue as decInfo when $1 == MetaKeyClientInfo
@@ -1774,6 +1781,11 @@ package mcp
 //@ func contentFromWire [C19]
 //@   nopanic
 //@   modifies *
+// Nested content of a tool_result (C19: every content kind the SDK encodes there decodes again): the blocks allowed
+// inside a tool_result are exactly the five a tool call result may carry - text, image, audio, resource_link and
+// embedded resource - whatever list the enclosing message allows; tool_use and tool_result do not nest.
+//@   assert at call contentsFromWire: @nested-blocks-are-the-tool-result-kinds $1 != nil && $1["text"] && $1["image"] && $1["audio"] && $1["resource_link"] && $1["resource"] && !$1["tool_use"] && !$1["tool_result"] && $0 == wire.NestedContent
+//@   ensures @a-block-the-caller-does-not-allow-is-refused wire != nil && allow != nil && !old(allow[wire.Type]) ==> result.1 != nil && result.0 == nil
 
 // readBatch (C19: decoding never panics on arbitrary bytes): whatever the payload - empty, blank, truncated, not JSON
 // at all - the function returns (messages or an error); a batch has exactly one decoded message per element, in
